@@ -2,3 +2,4 @@ import XProofs.Properties.C09
 #print axioms Properties.C09.C09_return_matched
 #print axioms Properties.C09.C09_restore
 #print axioms Properties.C09.C09_coherent
+#print axioms Properties.C09.C09_restore_unit_weights
